@@ -549,6 +549,9 @@ func init() {
 				if i%10 == 9 {
 					n = 500
 				}
+				if i%20 == 13 {
+					n = int64(2048 + (i*37)%3000) // beyond any small-slice special case of a sort
+				}
 				cs = append(cs, fw.Case{Kind: "sort", Seed: gen.Sub(seed, "c10sort", i), P: map[string]int64{"n": n, "nrefs": 3, "nvers": 2}})
 			}
 			cs = append(cs, fw.Case{Kind: "reject", Seed: gen.Sub(seed, "c10rej", 0), P: map[string]int64{"nrefs": 10, "nvers": 5}})
